@@ -11,7 +11,7 @@ import sys
 
 VERIF = os.path.dirname(os.path.abspath(__file__))
 REPO = os.environ.get("VF_REPO", "/repo")
-BUILD = os.path.join(VERIF, "build") if REPO == "/repo" else os.path.join(VERIF, "build", "alt_" + REPO.strip("/").replace("/", "_"))
+BUILD = os.path.join(VERIF, "build", "wip") if (REPO == "/repo" and os.environ.get("VF_WIP")) else os.path.join(VERIF, "build") if REPO == "/repo" else os.path.join(VERIF, "build", "alt_" + REPO.strip("/").replace("/", "_"))
 
 GOENV = {
     "GOFLAGS": "-mod=mod",
@@ -56,6 +56,9 @@ def prepare():
 
     h = os.path.join(VERIF, "harness")
     inject(os.path.join(h, "sarama"), REPO, lambda f: "zz_vf_" + f)
+    if os.environ.get("VF_WIP"):
+        # files under development live in harness/wip so that a half-written file never breaks other builds
+        inject(os.path.join(h, "wip"), REPO, lambda f: "zz_vfwip_" + f)
     inject(os.path.join(h, "mocks"), os.path.join(REPO, "mocks"), lambda f: "zz_vf_" + f)
     inject(os.path.join(h, "vfcore"), os.path.join(REPO, "internal", "vfcore"), lambda f: f)
     inject(os.path.join(h, "vfref"), os.path.join(REPO, "internal", "vfref"), lambda f: f)
